@@ -3,20 +3,37 @@ C04 — emptiness and determinism tests are exact; the language-equivalence orac
 -/
 import Pfl.Proofs.FABase
 import Pfl.Oracle.LangEquiv
+import Pfl.Proofs.FAOracle
 namespace Pfl
 namespace ENFA
 variable {σ τ : Type} [DecidableEq σ] [DecidableEq τ]
 
 theorem isEmpty_iff (A : ENFA σ) (hA : A.WF) : A.isEmpty = true ↔ ∀ w, ¬ A.Lang w := by
-  sorry
+  unfold isEmpty
+  simp only [Bool.not_eq_eq_eq_not, Bool.not_true, List.any_eq_false, decide_eq_true_eq,
+    mem_reachable_iff A hA]
+  constructor
+  · rintro h w ⟨s, hs, f, hf, hr⟩
+    exact h f ⟨s, hs, w, hr⟩ hf
+  · rintro h q ⟨s, hs, w, hr⟩ hf
+    exact h w ⟨s, hs, q, hf, hr⟩
 
 theorem isDeterministicE_iff (A : ENFA σ) (hA : A.WF) :
     A.isDeterministicE = true ↔ A.Deterministic := by
-  sorry
+  unfold isDeterministicE Deterministic
+  rw [Bool.and_eq_true, Bool.and_eq_true, decide_eq_true_eq,
+    FAOracle.eraseDups_length_le_one_iff, tfDeterministic_iff, ecloseSelf_iff A hA, and_assoc]
 
 theorem isDeterministicN_iff (A : ENFA σ) (he : A.EpsFree) :
     A.isDeterministicN = true ↔ A.Deterministic := by
-  sorry
+  unfold isDeterministicN Deterministic
+  rw [Bool.and_eq_true, decide_eq_true_eq,
+    FAOracle.eraseDups_length_le_one_iff, tfDeterministic_iff]
+  constructor
+  · rintro ⟨h1, h2⟩
+    exact ⟨h1, h2, fun q r h => absurd rfl (he _ h)⟩
+  · rintro ⟨h1, h2, _⟩
+    exact ⟨h1, h2⟩
 
 end ENFA
 end Pfl
